@@ -56,7 +56,7 @@ func useCheck(id, fam string, tier common.Tier) int {
 	}
 	run.SetRule("state = (using package, annotation mix, history of declarations, each with a statement sequence); every state is rendered and analysed by the real analyzers via checker.Analyze and every candidate line compared with a reference that applies the once-per-file-and-type rule in textual order. Non-trivial = the reference expects at least one diagnostic.",
 		fmt.Sprintf("single declaration: all statement sequences of length<=%d over %d sites and length<=%d over %d core sites x %d enclosers x files {regular,_test}; histories of <=%d declarations (body with one core statement, or a declaration-level site) x 3 files; %d packages x %d mixes",
-			lenAll, len(all), lenCore, len(core), int(e1.UEPkgVar)+1, depthB, len(pkgs), len(mixes)))
+			lenAll, len(all), lenCore, len(core), 8, depthB, len(pkgs), len(mixes)))
 	run.Assume("go/parser, go/types, checker.Analyze trusted")
 	run.NotJudged("receiver of a method declared on a @testonly type", "@testonly types in the signature of a @testonly function",
 		"for @testonly: function/method values, conversions, type assertions, new(T), []T variables (the statement lists call / literal / typed variable / field / parameter / result)",
@@ -77,7 +77,10 @@ func useCheck(id, fam string, tier common.Tier) int {
 		for _, pk := range pkgs {
 			for _, mix := range mixes {
 				// Phase A: one declaration, statement sequences.
-				for encl := e1.UEPlain; encl <= e1.UEPkgVar; encl++ {
+				for encl := e1.UEPlain; encl < e1.UseEncl(len(e1.UseEnclNames)); encl++ {
+					if !encl.HasBody() {
+						continue
+					}
 					for _, file := range []int{0, 2} {
 						if file == 2 && encl != e1.UEPlain {
 							continue
@@ -103,7 +106,7 @@ func useCheck(id, fam string, tier common.Tier) int {
 				var alpha []e1.UseBlock
 				for encl := e1.UEPlain; encl < e1.UseEncl(len(e1.UseEnclNames)); encl++ {
 					for file := 0; file < 3; file++ {
-						if encl <= e1.UEPkgVar {
+						if encl.HasBody() {
 							for _, c := range core {
 								alpha = append(alpha, e1.UseBlock{Encl: encl, File: file, Stmts: []int{c}})
 							}
@@ -126,11 +129,15 @@ func useCheck(id, fam string, tier common.Tier) int {
 					for _, b := range alpha {
 						if len(h) >= 2 && depthB == 3 {
 							// third declaration: bound deviations — regular files only, core statement 0..2 or declaration-level
-							if b.File == 2 || (b.Encl <= e1.UEPkgVar && b.Encl != e1.UEPlain) {
+							if b.File == 2 || (b.Encl.HasBody() && b.Encl != e1.UEPlain) {
 								continue
 							}
 						}
-						rec(append(append([]e1.UseBlock(nil), h...), b))
+						nh := append(append([]e1.UseBlock(nil), h...), b)
+						if !e1.ValidUseHistory(nh) {
+							continue
+						}
+						rec(nh)
 					}
 				}
 				rec(nil)
